@@ -34,7 +34,9 @@ def cases(ctx):
 
     def bds20(codes, df=None):
         fields = [(0, 8, 0x20)] + [(8 + 6 * i, 6, c) for i, c in enumerate(codes)]
-        return hex_of(spec.commb_frame(rng, df if df is not None else rng.choice([20, 21]), fields))
+        h = hex_of(spec.commb_frame(rng, df if df is not None else rng.choice([20, 21]), fields))
+        k = rng.random()
+        return h if k < 0.5 else (h.lower() if k < 0.8 else spec.mixcase(rng, h))
 
     for pos in range(8):
         for _b in range(nr):
@@ -51,6 +53,22 @@ def cases(ctx):
                            tag="cs-pos" if legal else "cs-illegal", trivial=not legal)
                 m = bds20(codes)
                 yield dict(op="cs20 " + m, real=("pyModeS.commb.cs20", [m]), expect=e, tag="cs20-pos")
+    # identifications with structure that random strings never have: all blanks (a legal identification: eight spaces),
+    # blanks at either end or in the middle, one repeated character, a single non-blank character at each position
+    SP = 32
+    special = [[SP] * 8, [1] * 8, [26] * 8, [48] * 8, [57] * 8]
+    for i in range(8):
+        special.append([SP] * i + [rng.choice(CODES)] + [SP] * (7 - i))
+        special.append([rng.choice([c for c in CODES if c != SP]) for _ in range(i)] + [SP] * (8 - i))
+        special.append([SP] * (8 - i) + [rng.choice([c for c in CODES if c != SP]) for _ in range(i)])
+    for codes in special:
+        e = "".join(LEGAL[c] for c in codes)
+        for tc in range(1, 5):
+            m = adsb_id(codes, tc=tc)
+            yield dict(op="callsign " + m, real=("pyModeS.adsb.callsign", [m]), expect=e, tag="cs-special")
+        for df in (20, 21):
+            m = bds20(codes, df=df)
+            yield dict(op="cs20 " + m, real=("pyModeS.commb.cs20", [m]), expect=e, tag="cs20-special")
     for _ in range(ctx.n(5000, 100000)):
         codes = [rng.choice(CODES) for _ in range(8)]
         e = "".join(LEGAL[c] for c in codes)
